@@ -534,3 +534,65 @@ def _max_collision_number(ctx, fi):
             elif isinstance(op, ast.Gt):
                 bounds.append(k)
     return min(bounds) if bounds else None
+
+
+@rule('SA-SIB.tool_symlink')
+@props('C20')
+def tool_symlink(ctx):
+    """A symbolic link is stored with the text the source tree has, in every view that stores one.
+
+    pycdlib-genisoimage hands the link text to add_symlink twice - `rr_path` for the Rock Ridge view and
+    `udf_target` for the UDF view.  Both have to be the verbatim result of os.readlink() on the same local path:
+    any transformation (normpath collapses `./x`, `a//b`, `a/../b` and a trailing slash) or a different source
+    makes one view of the image disagree with the tree, silently.  For each add_symlink call of the tool, every
+    non-None reaching definition of either argument expands to the same `os.readlink(<path>)` call."""
+    from .. import expand as ex
+    obs = []
+    n = 0
+    for fi in ctx.m.functions.values():
+        if not ctx.m.modules[fi.module].is_tool:
+            continue
+        calls = [c for c in ctx.own_nodes(fi) if isinstance(c, ast.Call) and isinstance(c.func, ast.Attribute) and c.func.attr == 'add_symlink']
+        if not calls:
+            continue
+        g, RD = ex._rd(ctx, fi)
+        for c in calls:
+            kws = dict((k.arg, k.value) for k in c.keywords if k.arg in ('rr_path', 'udf_target'))
+            if len(kws) < 2:
+                continue
+            n += 1
+            st = ctx.enclosing_stmt(fi, c)
+            gn = g.node_of(st)
+            srcs = {}
+            for arg, v in kws.items():
+                vals = set()
+                if isinstance(v, ast.Name):
+                    for nm, dnid in RD.get(gn.id, ()) or ():
+                        if nm != v.id:
+                            continue
+                        ds = g.nodes[dnid].stmt
+                        if isinstance(ds, ast.Assign) and len(ds.targets) == 1 and isinstance(ds.targets[0], ast.Name):
+                            if isinstance(ds.value, ast.Constant) and ds.value.value is None:
+                                continue
+                            vals.add(norm(ex.expand(ctx, fi, ds.value, ds)))
+                        else:
+                            vals.add('<%s>' % norm(ds)[:40])
+                elif not (isinstance(v, ast.Constant) and v.value is None):
+                    vals.add(norm(ex.expand(ctx, fi, v, st)))
+                srcs[arg] = vals
+            key = '%s|add_symlink link text' % fi.qual
+            allv = srcs['rr_path'] | srcs['udf_target']
+            verbatim = all(s.startswith('os.readlink(') and s.endswith(')') and s.count('(') == 1 for s in allv)
+            same = srcs['rr_path'] == srcs['udf_target'] and len(allv) == 1
+            ok = verbatim and same
+            why = ''
+            if not verbatim:
+                why = 'the link text is not the verbatim result of os.readlink(): %s' % '; '.join(
+                    '%s = %s' % (a, ' | '.join(sorted(v)) or 'None') for a, v in sorted(srcs.items()))
+            elif not same:
+                why = 'the Rock Ridge and UDF views get different link texts: %s' % '; '.join('%s = %s' % (a, ' | '.join(sorted(v))) for a, v in sorted(srcs.items()))
+            obs.append(Ob('SA-SIB.tool_symlink', key, ok, ctx.loc(fi, c),
+                          '' if ok else why + ' - a link whose text is not in normal form (./a, sub/, a//b, a/../b) comes back changed in that view of the image'))
+    if n < 1:
+        raise AnalysisError('anchor-vanished: add_symlink call of pycdlib-genisoimage with rr_path and udf_target')
+    return obs
